@@ -133,4 +133,20 @@ CLAIMS = {
         "against the stdlib on a grid and on solver witnesses each run).",
         "technique": "AST-to-SMT translation of route selection (z3 BV32+FP64) + symbolic execution of the real forwarding code (CrossHair+z3), counterexamples replayed",
     },
+    "C06": {
+        "text": "Decision points: Router.receive_frame and Firewall.receive_frame on real devices with warm ARP, the "
+        "verdict of every ACL list a solver boolean: a denied frame causes no ARP learning, is not handed to the "
+        "device's own software and is not forwarded; the firewall forwards from zone X to zone Y only if X's egress and "
+        "Y's ingress list both permit, consults X's list first, and forwards when both permit (all 64 verdict "
+        "combinations x 6 zone pairs). End to end: two copies of a generated host-router-server scenario in one path, "
+        "the attacker runs a solver-chosen operation from a 10-item repertoire in one of them; with a solver-chosen "
+        "block in place (ACL any-any / exact source / wildcard range / per-protocol rules, router port down, victim "
+        "interface down, victim off, router off; before or after a warm-up exchange) the victim's identifier-"
+        "normalised describe_state() after 3 ticks is identical in both; a twin shows an unblocked attack is visible.",
+        "note": "Bounds: one topology; the claim 'all cross-host effects travel as frames' only for the repertoire "
+        "exercised; wireless and switched-only topologies not covered; ACL list logic itself is C07. The end-to-end "
+        "part has only finite choices: the solver enumerates them exhaustively. Trusted: CrossHair/z3, the per-frame "
+        "call recorders, describe_state() as the victim's state.",
+        "technique": TECH_S,
+    },
 }
